@@ -103,7 +103,6 @@ def Kind.bits : Kind → Nat
   | _ => 0
 
 /-! ### zero values -/
-mutual
 def zeroVal (S : Schema) : Nat → Ty → Val
   | _, .base .string => .str []
   | _, .base .binary => .bin true []
@@ -112,11 +111,10 @@ def zeroVal (S : Schema) : Nat → Ty → Val
   | _, .list _ _ => .lst true []
   | _, .map _ _ => .mp true []
   | 0, .strct _ => .st [] []
-  | fuel + 1, .strct sid => .st (zeroFields S fuel (S.get sid).fields) []
-def zeroFields (S : Schema) : Nat → List Field → List Val
-  | _, [] => []
-  | fuel, f :: r => zeroVal S fuel f.ty :: zeroFields S fuel r
-end
+  | fuel + 1, .strct sid => .st ((S.get sid).fields.map fun f => zeroVal S fuel f.ty) []
+
+def zeroFields (S : Schema) (fuel : Nat) (fs : List Field) : List Val :=
+  fs.map fun f => zeroVal S fuel f.ty
 
 /-- the value `InitDefault()` leaves in a zero struct -/
 def defaultFields (S : Schema) (fuel : Nat) : List Field → List Val
